@@ -151,3 +151,18 @@ pub fn c05_information_request() {
         vassert!(u32::from(r[n - 1]) == le32(&b.0, 8 + 4 * (n - 1)), "last request decodes from its offset");
     }
 }
+
+// @harness props=C05 tier=quick panic=allow must_panic=yes
+// @encodes DynSizedStructure::<TagHeader>::ref_from_slice / payload() with a declared size below the fixed part of the generic tag (8)
+// @bound declared size 1..=7, 8-byte slice, contents symbolic
+#[cfg_attr(kani, kani::proof)]
+pub fn c05_generic_small() {
+    let mut b = Aligned::<16>::any();
+    let size: usize = nd::any();
+    nd::assume(size >= 1 && size <= 7);
+    put32(&mut b.0, 4, size as u32);
+    if let Ok(t) = DynSizedStructure::<TagHeader>::ref_from_slice(&b.0[..8]) {
+        let _ = t.payload().len();
+        noreturn!("a generic tag whose size is below its fixed part must be rejected, not handed out");
+    }
+}
